@@ -1100,11 +1100,14 @@ func (p *queryPlan) Execute(ctx context.Context) (*table.Table, error) {
 	if err := p.projectAndGroupBy(); err != nil {
 		return nil, err
 	}
-	p.orderBy()
+	// HAVING goes first: the order has to hold among the rows that are
+	// returned, and rows of another kind that HAVING drops would otherwise take
+	// part in the sort (values of different kinds compare as equal).
 	err := p.having()
 	if err != nil {
 		return nil, err
 	}
+	p.orderBy()
 	p.limit()
 	if p.tbl.NumRows() == 0 {
 		// Correct the bindings.
